@@ -211,7 +211,14 @@ func (m *Manager) Stop() error {
 		wrap := v.(*container)
 		wrap.rmLock.Lock()
 		ses := wrap.ses
+		removed := wrap.removed
 		wrap.rmLock.Unlock()
+
+		if removed {
+			// Range may still come across a container that has left the map meanwhile (its session
+			// has ended on its own, or has expired): it has been counted down by whoever removed it
+			return true
+		}
 
 		if ses != nil {
 			ses.stop(mqttp.CodeServerShuttingDown)
